@@ -44,8 +44,30 @@ def runGens (P : Params) (hs real : Bool) : State → Bool → List (List String
       | none => [here, "nil"]                       -- ReattachConfig() returned nil: no further client
       | some s1 => here :: runGens P hs real s1 killed' rest
 
+/-- `X` (another host's connection to the plugin comes and goes) is not an operation on this client: the model has no
+event for it, its result is printed as `x` and everything else is as without it -/
+def withoutX (ops : List String) : List String := ops.filter (· != "X")
+
+/-- put an `x` back at the positions of the `X` operations -/
+def weave : List String → List String → List String
+  | [], rs => rs
+  | "X" :: ops, rs => "x" :: weave ops rs
+  | _ :: ops, r :: rs => r :: weave ops rs
+  | _ :: _, [] => []
+
 def run (tag : String) (kv : KV) : String :=
-  let ops := commaList (kv.getD "ops" "_")
+  let ops0 := commaList (kv.getD "ops" "_")
+  if ops0.contains "X" && !ops0.contains "G" then
+    let kv' : KV := ("ops", String.intercalate "," (withoutX ops0)) :: kv.filter (·.1 != "ops")
+    let r := Oracle.C19.run tag kv'
+    -- r = "outs=a,b,c launches=… dirs=…": weave the x's into the outs list
+    match r.splitOn " " with
+    | o :: rest =>
+      let outs := commaList (o.drop 5).toString
+      String.intercalate " " (("outs=" ++ String.intercalate "," (weave ops0 outs)) :: rest)
+    | [] => r
+  else
+  let ops := ops0
   if !ops.contains "G" then Oracle.C19.run tag kv else
   let P := Facts.lifecycle
   let hs := boolOf (kv.getD "hs" "1")
